@@ -95,6 +95,56 @@ func TestVerifDriverC16(t *testing.T) {
 			fail("I16 round trip of %d: read %d err %v, %d left unread", v16, r, err, buf.Len())
 		}
 	}
+	// doubles, bit for bit (model values are bit patterns here)
+	var bits []uint64
+	for _, v := range vals[:nModel] {
+		bits = append(bits, uint64(v))
+	}
+	for _, f := range []float64{0, math.Copysign(0, -1), 1, -1, math.MaxFloat64, -math.MaxFloat64, math.SmallestNonzeroFloat64, math.Inf(1), math.Inf(-1), math.NaN(), math.Pi} {
+		bits = append(bits, math.Float64bits(f))
+	}
+	bits = append(bits, 0x7ff8000000000001, 0xfff0000000000123, 0x0102030405060708, 0x8000000000000001)
+	for i := 0; i < 2000; i++ {
+		bits = append(bits, rng.Uint64())
+	}
+	for _, b := range bits {
+		buf.Reset()
+		if err := p.WriteDouble(math.Float64frombits(b)); err != nil {
+			fail("WriteDouble(bits %#x): %v", b, err)
+		}
+		n := buf.Len()
+		r, err := p.ReadDouble()
+		if err != nil || math.Float64bits(r) != b || buf.Len() != 0 || n != 8 {
+			fail("double round trip of bits %#x: read bits %#x err %v, %d bytes written, %d left unread", b, math.Float64bits(r), err, n, buf.Len())
+		}
+	}
+	// the binary protocol's fixed-width fields on the same values
+	bbuf := NewTMemoryBuffer()
+	bp := NewTBinaryProtocolTransport(bbuf)
+	for _, v := range vals {
+		bbuf.Reset()
+		bp.WriteI64(v)
+		if r, err := bp.ReadI64(); err != nil || r != v || bbuf.Len() != 0 {
+			fail("binary I64 round trip of %d: read %d err %v, %d left unread", v, r, err, bbuf.Len())
+		}
+		bbuf.Reset()
+		bp.WriteI32(int32(v))
+		if r, err := bp.ReadI32(); err != nil || r != int32(v) || bbuf.Len() != 0 {
+			fail("binary I32 round trip of %d: read %d err %v, %d left unread", int32(v), r, err, bbuf.Len())
+		}
+		bbuf.Reset()
+		bp.WriteI16(int16(v))
+		if r, err := bp.ReadI16(); err != nil || r != int16(v) || bbuf.Len() != 0 {
+			fail("binary I16 round trip of %d: read %d err %v, %d left unread", int16(v), r, err, bbuf.Len())
+		}
+	}
+	for _, b := range bits {
+		bbuf.Reset()
+		bp.WriteDouble(math.Float64frombits(b))
+		if r, err := bp.ReadDouble(); err != nil || math.Float64bits(r) != b || bbuf.Len() != 0 {
+			fail("binary double round trip of bits %#x: read bits %#x err %v, %d left unread", b, math.Float64bits(r), err, bbuf.Len())
+		}
+	}
 	// strings: the length prefix and the bytes (model values are lengths here)
 	var lens []int
 	for _, v := range vals[:nModel] {
